@@ -1626,8 +1626,45 @@ def fold_constants(trees):
                         ctx=ast.Load()), m)
                     _replace_node(fn, m, new)
                     n += 1
+            # constant operands of and/or in tests: `c and False` -> False,
+            # `c or True` -> True (c has no call), `c and True` -> c
+            for m in ast.walk(fn):
+                if isinstance(m, (ast.If, ast.While)) and isinstance(
+                        m.test, ast.BoolOp):
+                    b = m.test
+                    is_and = isinstance(b.op, ast.And)
+                    absorbing = [v for v in b.values if isinstance(
+                        v, ast.Constant) and bool(v.value) != is_and]
+                    if absorbing and _no_calls(b):
+                        m.test = ast.copy_location(ast.Constant(
+                            value=not is_and), b)
+                        n += 1
+                    else:
+                        keep_v = [v for v in b.values if not (
+                            isinstance(v, ast.Constant) and
+                            bool(v.value) == is_and)]
+                        if keep_v and len(keep_v) < len(b.values):
+                            m.test = keep_v[0] if len(keep_v) == 1 else \
+                                ast.copy_location(ast.BoolOp(
+                                    op=b.op, values=keep_v), b)
+                            n += 1
             for blk in _blocks(fn):
                 for st in list(blk):
+                    if isinstance(st, ast.While) and isinstance(
+                            st.test, ast.Constant) and not st.test.value \
+                            and not st.orelse:
+                        blk[blk.index(st)] = ast.copy_location(
+                            ast.Pass(), st)
+                        n += 1
+                        continue
+                    if isinstance(st, ast.If) and isinstance(
+                            st.test, ast.Constant):
+                        keep = st.body if st.test.value else st.orelse
+                        j = blk.index(st)
+                        blk[j:j + 1] = keep or [ast.copy_location(
+                            ast.Pass(), st)]
+                        n += 1
+                        continue
                     if not (isinstance(st, ast.If) and isinstance(
                             st.test, ast.Compare) and len(
                             st.test.ops) == 1 and isinstance(
